@@ -84,6 +84,8 @@ MUTANTS += [
     dict(id="c03-freelist-mark-after-index-flush", props=["C03"], desc="the freelist mark is taken after the index flush instead of before the primary flush",
          edits=[(ST, "\tfreed := s.freelist.Mark()\n", ""),
                 (ST, "\tvhook.Point(\"commit.indexFlushed\")\n\tflWork, err := s.freelist.FlushTo(freed)\n", "\tvhook.Point(\"commit.indexFlushed\")\n\tflWork, err := s.freelist.FlushTo(s.freelist.Mark())\n")]),
+    dict(id="c13-store-flush-ignores-freelist-work", props=["C13"], desc="Store.Flush does not count pending freelist blocks as work (blocks left behind by a commit stay in memory)",
+         edits=[(ST, "+s.freelist.OutstandingWork() > 0", " > 0")]),
     # C07
     dict(id="c07-bucketpos-end-of-record", props=["C07", "C02"], desc="flushBucket records the end instead of the start of a record for file choice",
          edits=[(IDX, "\t\tOffset: localPosToBucketPos(int64(length+sizePrefixSize), idx.fileNum, idx.maxFileSize),", "\t\tOffset: localPosToBucketPos(int64(length+sizePrefixSize), idx.fileNum, idx.maxFileSize) + types.Position(int64(toWrite)/64),")]),
